@@ -210,8 +210,11 @@ def clause_c(ctx, P):
                 if h in he.reachable(tgt, removed_blocks=[nm[0].bb]):
                     ok = False
     ctx.ob("C08c.namechange-event", he.name, ok, he.loc(), "a NameChange event is sent for every probe record that carries a new name")
-    act = [b for b, t in he.calls() if ("HashMap" in cname(t)) and method(cname(t)) in ("insert", "get_mut") and recv_mentions(P, he, b, t, "active", "DnsRegistry")]
-    ctx.ob("C08c.moved-to-active", he.name, len(act) >= 2, he.loc(), "finished probe records are moved into `active`")
+    # get_mut + insert, or the entry API: either way the probe's records end up in `active`
+    act = [b for b, t in he.calls() if ("HashMap" in cname(t)) and method(cname(t)) in ("insert", "get_mut", "entry") and recv_mentions(P, he, b, t, "active", "DnsRegistry")]
+    feeds = any(expr_mentions_field(htr.operand(a, endpos(he, b)), "records", "Probe") for b, t in he.calls()
+                if method(cname(t)) in ("insert", "extend", "append", "or_insert", "or_insert_with") for a in t["args"][1:])
+    ctx.ob("C08c.moved-to-active", he.name, len(act) >= 1 and feeds, he.loc(), "finished probe records are moved into `active`")
 
 
 def clause_d(ctx, P):
@@ -225,6 +228,9 @@ def clause_d(ctx, P):
         for a in strip(tr.local(0, endpos(rn, rb))):
             rs.add(a)
     ok = any(a == ("param", 2) for a in rs) and any(has_call(a, "HashMap::get") and expr_mentions_field(a, "name_changes", "DnsRegistry") for a in rs)
+    # the same as one expression: name_changes.get(name).map_or(name, ..) / .map(..).unwrap_or(name)
+    ok = ok or any(a[0] == "call" and method(strip_generics(a[1])) in ("map_or", "unwrap_or", "map_or_else") and has_call(a, "HashMap::get") and
+                   expr_mentions_field(a, "name_changes", "DnsRegistry") and any(x == ("param", 2) for x in walk(a)) for a in rs)
     ctx.ob("C08d.resolve-name-body", rn.name, ok, rn.loc(), "resolve_name returns name_changes[name] when present, else the name")
 
 
